@@ -18,3 +18,4 @@ def run(ck):
     filt.r7_signed_totals(ck, P, 'C02-R12')
     filt.r_axis_consistency(ck, P, 'C02-R13')
     codec.r8_scalar_helpers(ck, P)
+    factors.r10f_simd_fetchers(ck, P, 'C02-R14')
